@@ -155,6 +155,7 @@ def run(ctx: common.Run):
     check_simulated_records(ctx, cirq)
     check_processor_sampler(ctx, cirq)
     check_classical_store_ints(ctx, cirq)
+    check_state_histogram(ctx, cirq)
     check_async_batch_order(ctx, cirq)
 
 
@@ -368,6 +369,43 @@ def check_sampler(ctx, cirq):
 
 
 
+def check_state_histogram(ctx, cirq):
+    """cirq.get_state_histogram(result): bin h counts the repetitions whose bits, concatenated over the keys in the order of the
+    result, read as a big-endian integer (Lean bits model) give h — for every storage type of the records and up to 13 qubits"""
+    rng = ctx.substream('state-histogram')
+    cases = []
+    for it in range(25 if ctx.tier == 'quick' else 250):
+        nkeys = rng.randint(1, 3)
+        widths = [rng.randint(1, 6) for _ in range(nkeys)]
+        if it % 3 == 0:
+            widths = rng.choice([[9], [6, 5], [8, 1, 2], [10], [4, 4, 4], [13]])
+        reps = rng.randint(1, 12)
+        dtype = rng.choice([np.uint8, np.int8, np.bool_, np.int64, np.uint8])
+        bits = {f'k{j}': [[rng.randint(0, 1) if rng.random() < 0.7 else 1 for _ in range(w)] for _ in range(reps)] for j, w in enumerate(widths)}
+        cases.append((widths, reps, dtype, bits))
+    reqs = []
+    for widths, reps, dtype, bits in cases:
+        for r in range(reps):
+            reqs.append({'p': 'C18', 'op': 'bits_to_int', 'bits': [b for k in bits for b in bits[k][r]]})
+    outs = iter(ctx.driver.ask(reqs))
+    for widths, reps, dtype, bits in cases:
+        total = sum(widths)
+        want = [0] * (2 ** total)
+        for r in range(reps):
+            want[next(outs)['ok']] += 1
+        forms = {'measurements': cirq.ResultDict(params=cirq.ParamResolver({}), measurements={k: np.array(v, dtype=dtype) for k, v in bits.items()}),
+                 'records': cirq.ResultDict(params=cirq.ParamResolver({}), records={k: np.array(v, dtype=dtype).reshape(reps, 1, -1) for k, v in bits.items()})}
+        for fname, res in forms.items():
+            ctx.count('view', 'state-histogram')
+            ctx.case(['state-histogram', widths, reps, np.dtype(dtype).name, fname], total >= 2)
+            got = [int(x) for x in cirq.get_state_histogram(res)]
+            if got != want:
+                ctx.report_witness('view:state_histogram', 'cirq.get_state_histogram does not count the repetitions by the big-endian integer of their bits',
+                                   {'lines': [{'widths': widths, 'repetitions': reps, 'dtype': np.dtype(dtype).name, 'form': fname, 'bits': bits}], 'impl_out': [[(i, c) for i, c in enumerate(got) if c]],
+                                    'spec_out': [[(i, c) for i, c in enumerate(want) if c]], 'theorem_or_correspondence': 'T2 bits vs CirqVerif.Digits'})
+                break
+
+
 def check_classical_store_ints(ctx, cirq):
     """the integer view of a record in the classical data store is the mixed-radix (big-endian) value of its digits, for every mixture
     of qubits and qudits under one key (the Lean digits model is the reference), for measurement and channel records; conditions that
@@ -500,6 +538,10 @@ def check_sampler_shapes_composite(ctx, cirq):
         (cirq.Circuit(cirq.CircuitOperation(body1, repetitions=2, use_repetition_ids=True)), {'0:m': (1, 1), '1:m': (1, 1)}),
         (cirq.Circuit(cirq.CircuitOperation(body2, repetitions=2, use_repetition_ids=False)), {'m': (2, 2), 'n': (2, 1)}),
         (cirq.Circuit(cirq.CircuitOperation(body2, measurement_key_map={'m': 'x'})), {'x': (1, 2), 'n': (1, 1)}),
+        # (tags on a sub-circuit operation change nothing)
+        (cirq.Circuit(cirq.CircuitOperation(body1, repetitions=2, use_repetition_ids=False).with_tags('t')), {'m': (2, 1)}),
+        (cirq.Circuit(cirq.CircuitOperation(cirq.FrozenCircuit(cirq.X(q[2]), cirq.measure(q[0], q[1], key='m')), repetitions=2, use_repetition_ids=False).with_tags('t', 7)), {'m': (2, 2)}),
+        (cirq.Circuit(cirq.CircuitOperation(cirq.FrozenCircuit(cirq.CircuitOperation(body2, repetitions=2, use_repetition_ids=False).with_tags('inner'))).with_tags('outer')), {'m': (2, 2), 'n': (2, 1)}),
         (cirq.Circuit(cirq.measure(q[0], key='m'), cirq.CircuitOperation(body1, repetitions=2, use_repetition_ids=False)), {'m': (3, 1)}),
         (cirq.Circuit(cirq.CircuitOperation(cirq.FrozenCircuit(cirq.CircuitOperation(body1, repetitions=2, use_repetition_ids=False)), repetitions=2, use_repetition_ids=False)), {'m': (4, 1)}),
         (cirq.Circuit(cirq.measure_single_paulistring(cirq.X(q[0]) * cirq.Z(q[1]), key='p')), {'p': (1, 1)}),
